@@ -1,3 +1,5 @@
+//go:build !skip_c14
+
 package main
 
 // C14 — only a Good, in-date OCSP response for that certificate is ever stapled.
